@@ -34,8 +34,8 @@ extern MPT_STRUCT(node) *mpt_node_append(MPT_STRUCT(node) *old, const MPT_STRUCT
 	}
 	/* one level up */
 	if (currop == MPT_PARSEFLAG(SectEnd)) {
-		/* last operation was non-empty section */
-		if (old && (prevop & MPT_PARSEFLAG(SectEnd))) {
+		/* last operation was no section start: current element is in section */
+		if (old && (prevop & MPT_PARSEFLAG(Option)) != MPT_PARSEFLAG(Section)) {
 			return old->parent;
 		}
 		return old;
@@ -72,7 +72,7 @@ extern MPT_STRUCT(node) *mpt_node_append(MPT_STRUCT(node) *old, const MPT_STRUCT
 		return 0;
 	}
 	/* previous element was section -> insert */
-	if (prevop && !(prevop & MPT_PARSEFLAG(SectEnd))) {
+	if ((prevop & MPT_PARSEFLAG(Option)) == MPT_PARSEFLAG(Section)) {
 		mpt_gnode_insert(old, 0, conf);
 	}
 	/* no previous or previous element was option -> append */
